@@ -20,17 +20,27 @@ PROP = dict(
          "(scalars), exponent not in {0,1} (power), array length >= 2 or shape parameters that change the shape (factor >= 2, delay != 0 ...)",
     bounds=dict(
         quick="real grid 24 values (+ per-function extras), complex grid 24x24 + 144 generic arguments + 18 near-cut points, exponents every "
-              "k/2 in [-8,8] (real, int, scalar^array, array^array, array^scalar overloads), array lengths every 1..32, 100, 1000 and the "
-              "full grid; reductions 14 letters (index, constant, alternating, two-level, LCG, max/min ties at "
-              "both ends, negative index, all +0, all -0, mixed signed zeros, a single non-zero element first / middle / last) x real/complex x "
-              "lengths 1..32,100,1000 with norm p in {default,1,2,3,4,8}; upsample/downsample len<=12 x factor<=12 x phase<min; "
+              "k/2 in [-8,8] (real, int, scalar^array, array^array, array^scalar overloads), array lengths every 1..32, 100, 1000, the "
+              "full grid and the BIG sizes 70000 and 200000 (every element-wise array overload and every reduction, long-double references); "
+              "reductions 15 letters (index, constant, alternating, two-level, LCG, max/min ties at "
+              "both ends, negative index, all +0, all -0, mixed signed zeros, a single non-zero element first / middle / last, extremes at positions n-3 / n-2 = beyond "
+              "index 65536 for the big sizes) x real/complex x lengths 1..32,100,1000,70000,200000 with norm p in {default,1,2,3,4,8}; upsample/downsample len<=12 x factor<=12 x phase<min; "
               "linspace n=1..100 x 5 endpoint pairs; integer arange every (start,stop,step) in [-12,12]^3 and arange(stop) stop in [-12,12]; "
               "fractional arange 4 starts x 6 dyadic steps x count 0..20 (3 template instantiations); long fractional arange starts "
-              "{0,-5,2.5,1e6} x non-dyadic steps {0.1,0.01,0.6,1/3,-0.7,1e-3} x counts {100,1000,10000} (every element against start+k*step "
+              "{0,-5,2.5,1e6} x non-dyadic steps {0.1,0.01,0.6,1/3,-0.7,1e-3} x counts {100,1000,10000,100000} (every element against start+k*step "
               "in long double within 8 eps*max(|start|,|k*step|,|result|), count, last element before stop); repelem len<=6 x n<=5; flip len<=12; "
-              "zeropad len<=8 x pad<=8; delayseq (real) N<=10 x delay in [-12,12]",
-        thorough="as quick with array / reduction lengths every 1..256 and 1000, long fractional arange also with count 100000"),
-    deadline=dict(quick=150, thorough=1500),
+              "zeropad len<=8 x pad<=8; delayseq (real and complex) N<=10 x delay in [-12,12]; big shapes (real and complex): upsample 70000 x3 "
+              "-> 210000 and back, downsample 200000 /3, repelem 70000 x3, flip 200000, zeropad 70000->200000, delayseq N=200000 with delays "
+              "{1,65536,70000,-65537,199999,-200000}; linspace n in {65537,70001,200000}; integer arange with 200000, 66667, 70000 and 200000 "
+              "(descending) elements",
+        thorough="as quick with: 120 magnitudes (every 2 decades 1e-100..1e100, a cluster around 1 incl. 1+-eps, the libm regime changes "
+                 "20, 355, 400, 709, 1e3) = real grid 242 values, complex grid 242x242 + 1344 generic arguments (every pi/96 at 7 radii) + "
+                 "near-cut points (about 60k points) for every scalar and array overload; exponents every k/8 in [-8,8] plus +-{1/3, pi/2, "
+                 "7.9, 0.1} (137 values) for all 12 power overloads; array / reduction lengths every 1..1024, 4096, 10000, 70000, 200000; "
+                 "upsample/downsample len<=32 x factor<=32; repelem len<=16 x n<=12; flip len<=64; zeropad 24x24; delayseq N<=32 x delay in "
+                 "[-40,40]; linspace n=1..400; integer arange [-40,40]^3; dyadic fractional arange count<=64; long fractional arange also "
+                 "count 10^6"),
+    deadline=dict(quick=150, thorough=3000),
     assumptions=COMMON_ASSUME + [
         "principal argument with atan2 conventions; a negative zero is also accepted as a plain zero: angle(0) in {0, atan2(im,re)}, "
         "negative real axis with im = -0 in {pi, -pi}; z^p = exp(p Log z), 0^p = 0 for p > 0; 0^p for p <= 0, negative real base with "
@@ -46,6 +56,5 @@ PROP = dict(
         "exact arithmetic, as the quantifier requires; the long non-dyadic aranges use stop = start + count*step rounded to double "
         "(count integral up to rounding): a library count one off the nominal count is treated as ambiguous and not judged, elements are "
         "judged only when the count is the nominal one",
-        "delayseq is exercised for real arrays only: delayseq<cmplx_t> does not compile (DESIGN F26, recorded with C18)",
     ],
 )
